@@ -1,6 +1,7 @@
 """Property -> harness modules.  A module may host conditions of several properties
 (the registry is filtered by property id)."""
 PROPS = {
+    'C08': ['mpgverif.harness.c08_novel_orf'],
     'C18': ['mpgverif.harness.c18_bookkeeping'],
     'C20': ['mpgverif.harness.c20_decoy'],
     'C19': ['mpgverif.harness.c19_filter'],
